@@ -160,6 +160,8 @@ impl<VM: VMBinding, R: Region + 'static> RegionPageResource<VM, R> {
         let old = alloc.cursor();
         let new = address.align_up(BYTES_IN_PAGE);
         let pages = (old - new) / BYTES_IN_PAGE;
+        #[cfg(mmtk_verif)]
+        crate::verif::verif_emit_range_release("region.reset_cursor", new, old);
         self.common().accounting.release(pages);
         alloc.set_cursor(new);
     }
